@@ -101,6 +101,14 @@ class Check:
         good = []
         for scn, r in zip(scenarios, results):
             if r.get("harness_error"):
+                if r.get("events"):
+                    # the driver broke after it had recorded events: the recorded prefix is judged first - when the specification
+                    # rejects it, the breakage is a consequence of that violation (eg a leaked expression mode makes every
+                    # later read unusable); only a clean prefix makes it a machinery failure
+                    r["_herr"] = r.pop("harness_error")
+                    r["_scn"] = scn
+                    good.append(r)
+                    continue
                 self.machinery_errors.append("%s: %s" % (r["id"], r["harness_error"][:2000]))
                 continue
             if r.get("crash"):
@@ -124,7 +132,7 @@ class Check:
 
         def one(i):
             b = batches[i]
-            payload = {"scenarios": [{k: v for k, v in r.items() if k != "_scn"} for r in b]}
+            payload = {"scenarios": [{k: v for k, v in r.items() if k not in ("_scn", "_herr")} for r in b]}
             return tlc.validate_batch(module, payload, self.workdir, "%s%03d" % (tag, i))
         with cf.ThreadPoolExecutor(max_workers=min(12, max(1, len(batches)))) as ex:
             outs = list(ex.map(one, range(len(batches))))
@@ -135,14 +143,16 @@ class Check:
             self.stats["events_accepted"] += st.get("events_accepted", 0)
             for r in b:
                 v = verd[r["id"]]
-                if v[1] == "PASS":
+                if v[1] == "PASS" and r.get("_herr"):
+                    self.machinery_errors.append("%s: %s" % (r["id"], r["_herr"][:2000]))
+                elif v[1] == "PASS":
                     self.stats["accepted"] += 1
                     if nontrivial is None or nontrivial(r):
                         self.nontrivial.add(sha([e for e in r["events"] if e["op"] != "construct"]))
                     if len(self.samples) < 3:
                         self.samples.append(self.sample_of(r))
                 else:
-                    self.report(failure_key(r, v), {"scenario": r["_scn"], "result": {k: x for k, x in r.items() if k != "_scn"},
+                    self.report(failure_key(r, v), {"scenario": r["_scn"], "result": {k: x for k, x in r.items() if k not in ("_scn", "_herr")},
                                                     "verdict": [v[0], v[1], v[2], v[3], sorted(v[4])],
                                                     "diag": repr(v[5]) if len(v) > 5 else ""})
         return good
